@@ -23,8 +23,8 @@ func TestVerif(t *testing.T) {
 	driver.Main(t, driver.Harness{
 		ID:    "C16",
 		Level: "model_checking",
-		Rule: "auth.Client over an in-process transport hosting two registries (a.example, and b.example or - same host name, other port - a.example:8443) and their token realms (one on the registry's own host, one on a foreign host), each with distinct recognisable secrets. " +
-			"sequential: every request sequence of length <= 3 (thorough 4) over {registry A|B} x {scope hint r1:pull | r2:pull,push | none} plus a request that registry A redirects to registry B and the base endpoint /v2/ of registry A (whose Bearer challenge names no scope) with and without a scope hint, for every pair of per-registry auth modes {Basic, Bearer distribution, Bearer OAuth2 refresh token, Bearer OAuth2 password+ForceAttemptOAuth2, access token; registry B also: a Bearer challenge that names no realm (outcome not judged, only what travelled), and an anonymous registry (no credential configured for it) whose challenge names registry A as its service}, " +
+		Rule: "auth.Client over an in-process transport hosting two registries (a.example, and b.example or - same host name, other port - a.example:8443 or - a sub-domain of registry A - sub.a.example) and their token realms (one on the registry's own host, one on a foreign host), each with distinct recognisable secrets. " +
+			"sequential: every request sequence of length <= 3 (thorough 4) over {registry A|B} x {scope hint r1:pull | r2:pull,push | none} plus a request that registry A redirects to registry B and the base endpoint /v2/ of registry A (whose Bearer challenge names no scope) with and without a scope hint, and a request to registry B that the caller makes by cloning and re-targeting the request object it sent last; credentials come from the library's StaticCredential of each registry in turn; for every pair of per-registry auth modes {Basic, Bearer distribution, Bearer OAuth2 refresh token, Bearer OAuth2 password+ForceAttemptOAuth2, access token; registry B also: a Bearer challenge that names no realm (outcome not judged, only what travelled), and an anonymous registry (no credential configured for it) whose challenge names registry A as its service}, " +
 			"every cache flavour {none, shared, single-context}, a scheme change of registry A after request {never,1,2}, and 3 renderings of the challenge scope string (order / duplication / wildcard action). " +
 			"concurrent: 2-3 goroutines through one cache (same host and scope, same host different scopes, different hosts, first caller cancelled during the token fetch, the second of three callers cancelled) under every schedule within D<=2. " +
 			"Oracle at the innermost transport: every outgoing request is scanned (headers, query, body) for every secret of the other registry; passwords/refresh tokens only to the registry that challenged Basic or to the realm that registry advertised; " +
@@ -86,7 +86,22 @@ func newWorld(modeA, modeB string, scopeForm int) *world {
 	return w
 }
 
-func (w *world) credential(_ context.Context, hostport string) (auth.Credential, error) {
+// credential is the client's credential function: the library's StaticCredential of each registry in
+// turn (registry A first), each configured for that registry's host and asked about hostport.
+func (w *world) credential(ctx context.Context, hostport string) (auth.Credential, error) {
+	for _, h := range []string{"a.example", hostB} {
+		if w.regs[h] == nil {
+			continue
+		}
+		own, _ := w.credentialOf(ctx, h)
+		if c, err := auth.StaticCredential(h, own)(ctx, hostport); err != nil || c != auth.EmptyCredential {
+			return c, err
+		}
+	}
+	return auth.EmptyCredential, nil
+}
+
+func (w *world) credentialOf(_ context.Context, hostport string) (auth.Credential, error) {
 	r := w.regs[hostport]
 	if r == nil {
 		return auth.EmptyCredential, nil
@@ -435,12 +450,19 @@ var modes = []string{"basic", "dist", "oauth-refresh", "oauth-pass", "access"}
 type reqKind struct {
 	host string
 	repo string // "" = no scope hint
+	// reuse: the request is made by cloning the request object the caller sent last (a mirror fail-over
+	// loop re-targets its request at the next host) instead of building a new one
+	reuse bool
 }
 
+// prevReq is the request object the caller handed to the client last in the current execution.
+var prevReq *http.Request
+
 // the last kind asks registry A for repository "rd", which A answers with a redirect to registry B
-var reqKinds = []reqKind{{"a.example", "r1"}, {"a.example", "r2"}, {"a.example", ""}, {"b.example", "r1"}, {"b.example", "r2"}, {"b.example", ""}, {"a.example", "rd"},
+var reqKinds = []reqKind{{"a.example", "r1", false}, {"a.example", "r2", false}, {"a.example", "", false}, {"b.example", "r1", false}, {"b.example", "r2", false}, {"b.example", "", false}, {"a.example", "rd", false},
 	// the base endpoint /v2/ of registry A, whose challenge names no scope: without and with a scope hint
-	{"a.example", "ping"}, {"a.example", "ping+r2"}}
+	{"a.example", "ping", false}, {"a.example", "ping+r2", false},
+	{host: "b.example", repo: "r1", reuse: true}}
 
 // hostB is the name of registry B for the current execution: "b.example", or
 // "a.example:8443" - the same host name as registry A on another port, still a
@@ -474,6 +496,13 @@ func doReq(ctx context.Context, c *auth.Client, id string, k reqKind) (*http.Res
 		path = "/v2/" + repo + "/manifests/latest"
 	}
 	req, _ := http.NewRequestWithContext(ctx, http.MethodGet, "https://"+k.host+path, nil)
+	if k.reuse && prevReq != nil {
+		req = prevReq.Clone(ctx)
+		u := *req.URL
+		u.Host, u.Path = k.host, path
+		req.URL, req.Host = &u, k.host
+	}
+	prevReq = req
 	req.Header.Set("X-Verif-Req", id)
 	req.Header.Set("X-Verif-Hint", hint) // read by the registry double only: the scope set the caller declared
 	return c.Do(req)
@@ -510,7 +539,8 @@ func seq(c *driver.Ctx, ma, mb, cache string, depth int) (func(), func(*vs.Resul
 	body := func() {
 		form := vs.Choose(3, vs.KInput, "scopeform")
 		change := vs.Choose(3, vs.KInput, "schemechange") // A switches to the next mode after request 0 / 1 / never(0)
-		hostB = []string{"b.example", "a.example:8443"}[vs.Choose(2, vs.KInput, "hostB")]
+		hostB = []string{"b.example", "a.example:8443", "sub.a.example"}[vs.Choose(3, vs.KInput, "hostB")]
+		prevReq = nil
 		w = newWorld(ma, mb, form)
 		cl := newClient(w, cache)
 		hist = append(hist, fmt.Sprintf("scopeform=%d change=%d registry B = %s", form, change, hostB))
@@ -526,7 +556,8 @@ func seq(c *driver.Ctx, ma, mb, cache string, depth int) (func(), func(*vs.Resul
 				hist = append(hist, "A switches to "+w.regs["a.example"].mode)
 			}
 			id := fmt.Sprintf("q%d", i)
-			hist = append(hist, fmt.Sprintf("%s GET %s scope-hint=%q", id, map[bool]string{true: "B", false: "A"}[k.host == "b.example"], k.repo))
+			hist = append(hist, fmt.Sprintf("%s GET %s scope-hint=%q%s", id, map[bool]string{true: "B", false: "A"}[k.host == "b.example"], k.repo,
+				map[bool]string{true: " (the caller clones the request object it sent last and re-targets it)", false: ""}[k.reuse]))
 			if k.repo == "rd" {
 				// Redirected request: judged by the leak oracle only (A's credentials are not B's, so the
 				// answer may be 401). Generated only when B challenges with Basic: a Bearer challenge arriving
@@ -688,7 +719,7 @@ type cscen struct {
 }
 
 func concJobs(th bool) []driver.Job {
-	a1, a2, b1 := reqKind{"a.example", "r1"}, reqKind{"a.example", "r2"}, reqKind{"b.example", "r1"}
+	a1, a2, b1 := reqKind{host: "a.example", repo: "r1"}, reqKind{host: "a.example", repo: "r2"}, reqKind{host: "b.example", repo: "r1"}
 	var scs []cscen
 	for _, cache := range []string{"shared", "single"} {
 		for _, m := range []string{"dist", "oauth-refresh", "basic"} {
